@@ -511,7 +511,10 @@ def render_directive_case(pk, case, uid0):
         elif kind == "cmtextra":
             pk.filler(("    // breadlog:ignore please\n", "    // see breadlog:no-kvp\n", "    // breadlog:ignore breadlog:no-kvp\n")[uid % 3])
         elif kind == "codetrail":
-            pk.filler("    let _z%d = 0; // breadlog:%s\n" % (uid, ("ignore", "no-kvp")[uid % 2]))
+            # code followed by a trailing directive comment; the code may contain a quote character that is not a string
+            # delimiter (a character literal, a raw string)
+            code = ("let _z%d = 0;", "let _q%d = '\"';", "let _r%d = r#\"say \"hi\"#;")[uid % 3] % uid
+            pk.filler("    %s // breadlog:%s\n" % (code, ("ignore", "no-kvp")[uid % 2]))
         elif kind in ("stmt", "stmtml", "stmttrail", "sameline", "stmt2"):
             uid += 1
             prefix = "    "
